@@ -11,6 +11,8 @@ From TS Require Import Spec.C10TsGrammar.
 From TS Require Proofs.C10_TSGrammarTok Proofs.C10_TSGrammarParse Proofs.C10_TSGrammar Proofs.C10_TSGrammarFile.
 From TS Require Import Model.MultiFile Spec.C10MultiSpec.
 From TS Require Model.Writer Proofs.C10Multi Proofs.C10MultiWitness.
+From TS Require Import Spec.C10GoGrammar.
+From TS Require Proofs.C10_GOGrammarTok Proofs.C10_GOGrammarSemi Proofs.C10_GOGrammarParse Proofs.C10_GOGrammar Proofs.C10_GOGrammarFile.
 
 (* ---------------------------------------------------------------- the lexers *)
 (* the lexer never looks below the bracket stack it started with: a text that is balanced on its own
@@ -468,3 +470,106 @@ Theorem C10_multi_imports_hypothesis_needed :
   good_C10_lex CTS (ts_write_imports [(lit "alpha", [lit "Item"])]) = true.
 Proof. exact Proofs.C10MultiWitness.C10_multi_imports_hypothesis_needed. Qed.
 Print Assumptions C10_multi_imports_hypothesis_needed.
+
+(* ---------------------------------------------------------------- (3') the GRAMMAR half, Go *)
+(* "the recogniser" = c10_go_recognise of Spec/C10GoGrammar.v: the tokenizer of the Go lexical grammar (comments, identifiers,
+   numbers, interpreted / raw string and rune literals with the escapes of the language, one-character punctuation; line ends
+   as tokens), the semicolon insertion of the language, and a recursive-descent parser of SourceFile / PackageClause / ImportDecl /
+   TypeDecl (with type parameters) / ConstDecl / FunctionDecl / MethodDecl / Type / StructType with field tags; function BODIES
+   are only recognised as balanced token runs.  checks/c10.py runs it on every real Go file (driver command c10_go_parse);
+   Some n = a source file with n top-level declarations.
+
+   The tokenizer is compositional at token boundaries: if the text b does not start with an identifier / number character, a
+   star or a slash, or the text a ends with a character that is none of these (gglue a b), and a opens no line comment or b
+   starts a new line (lcok a b), the raw tokens of a ++ b are those of a followed by those of b - with exactly the fuel the
+   recogniser gives it. *)
+Theorem C10_go_tokens_frame :
+  forall (a : str) (ta : list c10_gtok) (b : str) (tb : list c10_gtok),
+    c10_go_tokens (S (List.length a)) a = Some ta -> c10_go_tokens (S (List.length b)) b = Some tb ->
+    Proofs.C10_GOGrammarTok.gglue a b = true -> Proofs.C10_GOGrammarTok.lcok a b = true ->
+    c10_go_tokens (S (List.length (a ++ b))) (a ++ b) = Some (ta ++ tb).
+Proof. exact Proofs.C10_GOGrammarTok.go_tokens_frame. Qed.
+Print Assumptions C10_go_tokens_frame.
+
+(* Semicolon insertion distributes over concatenation: the stream of a ++ b is the stream of a followed by the stream of b
+   started with the flag a ends with ("a line end here becomes a semicolon") *)
+Theorem C10_go_semis_app :
+  forall (a : list c10_gtok) (fl : bool) (b : list c10_gtok),
+    c10_go_semis fl (a ++ b) = c10_go_semis fl a ++ c10_go_semis (Proofs.C10_GOGrammarSemi.endfl fl a) b.
+Proof. exact Proofs.C10_GOGrammarSemi.semis_app. Qed.
+Print Assumptions C10_go_semis_app.
+
+(* The parser is complete for the declarative grammar GGr of Proofs/C10_GOGrammarParse.v (Type, TypeArgs, StructType, FieldDecl of
+   the header comment of Spec/C10GoGrammar.v as an inductive family over token lists): the tokens of a type followed by
+   anything that does not start with a dot or an opening bracket are consumed exactly, with the fuel the recogniser gives itself *)
+Theorem C10_go_type_grammar_complete :
+  forall (t rest : list c10_gtok),
+    Proofs.C10_GOGrammarParse.GGr Proofs.C10_GOGrammarParse.GTy t -> Proofs.C10_GOGrammarParse.folt rest ->
+    c10_go_type (t ++ rest) = Some rest.
+Proof. exact Proofs.C10_GOGrammarParse.go_type_ok. Qed.
+Print Assumptions C10_go_type_grammar_complete.
+
+(* ... and for whole source files: a package clause, import declarations (none, one, or a group of n) and any sequence of
+   declarations each of which the declaration parser consumes up to its semicolon (DeclToks; shown for type declarations with type
+   parameters, single and grouped constants, functions and methods with balanced bodies) is accepted, as exactly that many
+   declarations *)
+Theorem C10_go_file_grammar_complete :
+  forall (pkg : str) (n : nat) (ds : list (list c10_gtok)),
+    c10_go_kw pkg = false -> Forall Proofs.C10_GOGrammarParse.DeclToks ds ->
+    c10_go_file (QId (lit "package") :: QId pkg :: QP 59 :: Proofs.C10_GOGrammarParse.imports_toks n ++ Proofs.C10_GOGrammarParse.decls_toks ds)
+      = Some (List.length ds).
+Proof. exact Proofs.C10_GOGrammarParse.go_file_ok. Qed.
+Print Assumptions C10_go_file_grammar_complete.
+
+(* Layout layer, whole files, PARTIAL (covered: version comment, package clause, the import declaration in its three forms,
+   structs with type parameters and tagged members, aliases, constants, unit enums = a type and a constant group; MISSING: tagged
+   enums (GOTagged: key type, constant group, struct, UnmarshalJSON / MarshalJSON, accessors, constructors - their parser side,
+   decl_func / Neutral, is proved, their text is only validated by the check and by the witness below) and the step from the IR
+   (go_decl_of) to these declarations): under any version line without a line end, any package name that is an identifier and
+   not a keyword, any import paths printable between double quotes, the text of ANY list of such declarations that are well-formed
+   for the grammar - names identifiers that are not keywords; doc lines without a line end; JSON keys and wire names key-shaped;
+   type trees whose applied names are such names and whose leaves / verbatim parts are types of the grammar (TyText); a decimal
+   constant - is accepted, with at least one declaration per item. *)
+Theorem C10_go_layout_grammar_partial :
+  forall (nv : bool) (version package : str) (imports : list str) (ds : list go_decl),
+    Proofs.C10Lex.c10_line_ok version = true -> Proofs.C10_GOGrammarSemi.c10_go_name_ok package = true ->
+    forallb c10_instr_ok imports = true -> Forall Proofs.C10_GOGrammar.c10_gog_decl_ok ds ->
+    exists n : nat,
+      c10_go_recognise (Proofs.C10_GOGrammarFile.go_header nv version package ++ go_write_all_imports imports ++
+                        List.concat (map go_render_decl ds)) = Some n /\ (List.length ds <= n)%nat.
+Proof. exact Proofs.C10_GOGrammarFile.go_decls_recognised. Qed.
+Print Assumptions C10_go_layout_grammar_partial.
+
+(* The hypotheses are satisfiable and acceptance means something: the program of the TypeScript witness (a documented generic struct
+   with string, optional, slice, array, DateTime, mapped and map-of-generic-application members and a dashed key, a generic alias, a
+   unit enum, a tagged enum with unit / tuple / optional-tuple / struct variants, two constants) is in dom_C10, in no finding class
+   (neither known_C10 nor the keyword class of the Go grammar), and its Go file - version comment, package clause, an import group,
+   every declaration with its UnmarshalJSON / MarshalJSON / accessors / constructors - is accepted as 19 declarations; the same
+   text without its first opening brace, with its first `=` turned into `:`, or without its first back-tick is rejected; two
+   struct fields on two lines are accepted, on one line (no separator) rejected; `type struct {}` (no name) is rejected. *)
+Theorem C10_grammar_go_witness :
+  Proofs.C10_GOFile.c10_go_cfg_ok Proofs.C10_GOGrammarFile.gg_cfg = true /\ dom_C10 CGO Proofs.C10_GOGrammarFile.gg_prog = true /\
+  known_C10 CGO [] Proofs.C10_GOGrammarFile.gg_prog = [] /\ known_C10_go_grammar Proofs.C10_GOGrammarFile.gg_prog = [] /\
+  go_generate uc_exec Proofs.C10_GOGrammarFile.gg_cfg Proofs.C10_GOGrammarFile.gg_prog = Ok Proofs.C10_GOGrammarFile.gg_text /\
+  c10_go_recognise Proofs.C10_GOGrammarFile.gg_text = Some 19%nat /\
+  contains_sub (lit "type Person[T any, U any] struct {") Proofs.C10_GOGrammarFile.gg_text = true /\
+  contains_sub (lit "import (") Proofs.C10_GOGrammarFile.gg_text = true /\
+  contains_sub (lit "func (e *E) UnmarshalJSON(data []byte) error {") Proofs.C10_GOGrammarFile.gg_text = true /\
+  contains_sub (lit "const MaxRetries int = -12") Proofs.C10_GOGrammarFile.gg_text = true /\
+  c10_go_recognise (Proofs.C10_TSGrammarFile.g_drop_first 123 Proofs.C10_GOGrammarFile.gg_text) = None /\
+  c10_go_recognise (Proofs.C10_TSGrammarFile.g_subst_first 61 58 Proofs.C10_GOGrammarFile.gg_text) = None /\
+  c10_go_recognise (Proofs.C10_TSGrammarFile.g_drop_first 96 Proofs.C10_GOGrammarFile.gg_text) = None /\
+  c10_go_recognise Proofs.C10_GOGrammarFile.gg_two_fields_two_lines = Some 1%nat /\
+  c10_go_recognise Proofs.C10_GOGrammarFile.gg_two_fields_one_line = None /\
+  c10_go_recognise Proofs.C10_GOGrammarFile.gg_type_without_name = None.
+Proof. exact Proofs.C10_GOGrammarFile.C10_go_grammar_nonvacuous. Qed.
+Print Assumptions C10_grammar_go_witness.
+
+(* the finding class the recogniser exposed is real: the Go back end escapes no keyword - an algebraic enum `switch` with a variant
+   `default` is in dom_C10, in no class of known_C10, in the class C10-go-keyword-name, and its file (`type switch struct{`,
+   `func (s switch) default() ...`) is rejected by the recogniser *)
+Theorem C10_go_keyword_name_refuted :
+  exists cfg pd text, dom_C10 CGO pd = true /\ known_C10 CGO [] pd = [] /\ known_C10_go_grammar pd = ["C10-go-keyword-name"%string] /\
+    go_generate uc_exec cfg pd = Ok text /\ contains_sub (lit "type switch struct{") text = true /\ c10_go_recognise text = None.
+Proof. exact Proofs.C10_GOGrammarFile.go_keyword_name_refuted. Qed.
+Print Assumptions C10_go_keyword_name_refuted.
